@@ -279,6 +279,47 @@ def inherited_dir(ctx, el):
     return None
 
 
+def auto_dir(ctx, el):
+    """Direction of an element with dir=auto from its text, by the HTML definition: the first character of strong
+    direction in a text node descendant, not looking into bdi/script/style/textarea nor into any descendant that has
+    a `dir` attribute in a defined state (ltr, rtl, auto - ASCII case-insensitive).  Returns 'ltr'/'rtl', or None when
+    this narrow model has no opinion (no strong character: the direction is then inherited; foreign or iframe content
+    in the subtree; text inputs)."""
+    import unicodedata
+    if not ctx.is_html_el(el) or name_of(ctx, el) in ('bdi', 'input', 'textarea'):
+        return None
+    raw = attr(ctx, el, 'dir')
+    if raw is None or R.ascii_lower(raw) != 'auto':
+        return None
+
+    class NoOpinion(Exception):
+        pass
+
+    def scan(node):
+        for c in node.contents:
+            if isinstance(c, bs4.Tag):
+                if not ctx.is_html_el(c) or R.is_iframe(ctx, c):
+                    raise NoOpinion()
+                d = attr(ctx, c, 'dir')
+                if name_of(ctx, c) in ('bdi', 'script', 'style', 'textarea') or (d is not None and R.ascii_lower(d) in ('ltr', 'rtl', 'auto')):
+                    continue
+                r = scan(c)
+                if r:
+                    return r
+            elif R.is_text(c):
+                for chr_ in str(c):
+                    b = unicodedata.bidirectional(chr_)
+                    if b == 'L':
+                        return 'ltr'
+                    if b in ('R', 'AL'):
+                        return 'rtl'
+        return None
+    try:
+        return scan(el)
+    except NoOpinion:
+        return None
+
+
 DEFS = {
     'checked': checked, 'default': default, 'disabled': disabled, 'enabled': enabled, 'indeterminate': indeterminate,
     'required': required, 'optional': optional, 'placeholder-shown': placeholder_shown, 'read-write': read_write,
